@@ -1,8 +1,17 @@
-import AlgoVerif.Common
-/-! Line-protocol component for C20 — not built yet. -/
-namespace AlgoVerif.C20.Driver
+import AlgoVerif.Model.C20
+/-! Line-protocol component for C20.
 
-def runCase (_hdr : List String) (ops : List String) : List String :=
-  ops.map fun _ => "bad-case"
+One case = one run of a race workload: header `comp=<workload> procs=<GOMAXPROCS> seed=<n> iters=<n> k=<n>`,
+a single op `run`.  The Model's line does not depend on procs/seed/iters/k — that is the content of the
+property (every schedule) — it is read off the table regenerated from /repo (`Generated/C20.lean`). -/
+namespace AlgoVerif.C20.Driver
+open AlgoVerif AlgoVerif.C20
+
+def runCase (hdr : List String) (ops : List String) : List String :=
+  let w := (headerGet hdr "comp").getD ""
+  ops.map fun op =>
+    match words op with
+    | ["run"] => predictLine w
+    | _ => "bad-op"
 
 end AlgoVerif.C20.Driver
